@@ -707,30 +707,29 @@ fn s_pick_next_two() {
 
 /// C16 at the scheduler: one side is blocked until `u`, one packet waits to enter the tunnel on
 /// that side. Whatever pick_next returns first, the packet never leaves before the blocking ends
-/// unless the blocking allows bypass AND the packet may bypass; blocking ends with exactly one
+/// unless the blocking OF THAT SIDE allows bypass AND the packet may bypass (the other side's flag,
+/// possibly left over from an earlier block there, is arbitrary); blocking ends with exactly one
 /// BlockingEnd at its expiry.
-#[kani::proof]
-#[kani::unwind(4)]
-#[kani::stub(alloc::fmt::format, format_stub)]
-#[kani::stub(rand::thread_rng, no_thread_rng)]
-fn s_pick_next_blocked() {
+fn pick_next_blocked(is_client: bool) {
     let t0 = any_instant();
     let none: &[Machine] = &[];
     let mut client = state_with(none, t0);
     let mut server = state_with(none, t0);
     let mut network = crate::network::verif_kani::small_bottleneck(Network::new(Duration::from_micros(1000), None), Duration::from_secs(1), usize::MAX, Duration::ZERO);
     let mut sq = empty_queue();
-    let is_client: bool = kani::any();
-    let until = t0 + any_duration_upto(1_000_000_000);
-    let bypassable: bool = kani::any();
+    let s1: u64 = kani::any();
+    let s2: u64 = kani::any();
+    kani::assume(s1 <= 1000 && s2 <= 1000);
+    let until = t0 + Duration::from_secs(s1);
+    client.blocking_bypassable = kani::any();
+    server.blocking_bypassable = kani::any();
     if is_client {
         client.blocking_until = Some(until);
-        client.blocking_bypassable = bypassable;
     } else {
         server.blocking_until = Some(until);
-        server.blocking_bypassable = bypassable;
     }
-    let pkt_time = t0 + any_duration_upto(1_000_000_000);
+    let bypassable = if is_client { client.blocking_bypassable } else { server.blocking_bypassable };
+    let pkt_time = t0 + Duration::from_secs(s2);
     let (pkt_bypass, padding): (bool, bool) = (kani::any(), kani::any());
     sq.push_sim(SimEvent { event: TriggerEvent::TunnelSent, time: pkt_time, integration_delay: Duration::ZERO, client: is_client,
         contains_padding: padding, bypass: pkt_bypass, replace: false, debug_note: None });
@@ -741,20 +740,34 @@ fn s_pick_next_blocked() {
     let side_until = if is_client { client.blocking_until } else { server.blocking_until };
     if next.event == TriggerEvent::TunnelSent {
         let may_bypass = bypassable && pkt_bypass;
-        assert!(may_bypass || next.time >= until, "C16: nothing leaves a blocked side before the blocking ends unless the blocking allows bypass and the packet may bypass");
+        assert!(may_bypass || next.time >= until, "C16: nothing leaves a blocked side before the blocking ends unless that side's blocking allows bypass and the packet may bypass");
         assert!(next.time >= pkt_time && (next.time == pkt_time || next.time == until), "C15: a packet leaves at its own time or when the blocking that held it ends");
         assert!(next.contains_padding == padding && sq.len() == 0, "C15: the packet that leaves is the packet that was queued");
     } else {
         assert!(next.event == TriggerEvent::BlockingEnd && next.time == until, "C16: the end of blocking is reported by BlockingEnd exactly at the expiry");
         assert!(side_until.is_none() && sq.len() == 1, "C16: after BlockingEnd the side is no longer blocked and the waiting packet is still queued");
     }
-    kani::cover!(next.event == TriggerEvent::TunnelSent && next.time < until, "packet bypassed active blocking");
-    kani::cover!(next.event == TriggerEvent::BlockingEnd && pkt_time < until, "packet held back until BlockingEnd");
+    kani::cover!(next.event == TriggerEvent::TunnelSent && s2 < s1, "packet bypassed active blocking");
+    kani::cover!(next.event == TriggerEvent::BlockingEnd && s2 < s1, "packet held back until BlockingEnd");
     core::mem::forget(sq);
     core::mem::forget(client);
     core::mem::forget(server);
     core::mem::forget(network);
     core::mem::forget(next);
+}
+#[kani::proof]
+#[kani::unwind(3)]
+#[kani::stub(alloc::fmt::format, format_stub)]
+#[kani::stub(rand::thread_rng, no_thread_rng)]
+fn s_pick_next_blocked_client() {
+    pick_next_blocked(true);
+}
+#[kani::proof]
+#[kani::unwind(3)]
+#[kani::stub(alloc::fmt::format, format_stub)]
+#[kani::stub(rand::thread_rng, no_thread_rng)]
+fn s_pick_next_blocked_server() {
+    pick_next_blocked(false);
 }
 
 // ------------------------------------------------------------------------------------------
